@@ -1,6 +1,10 @@
 """C14: aligned allocation.  One harness source, two allocator back ends = two units."""
 from vcheck import Unit, ASAN, ASAN_ENV
 
+# a systematic sanitizer abort (one per history) must stay cheap: do not symbolize
+_ENV = dict(ASAN_ENV)
+_ENV["ASAN_OPTIONS"] = ASAN_ENV["ASAN_OPTIONS"] + ":symbolize=0"
+
 _RULE = ("alignedMalloc/alignedFree: every history of D operations (every shorter history is a checked prefix) over "
          "{malloc(size, align) into the lowest free of 3 slots, free(s) for each occupied slot s}; "
          "full alphabet size in {0,1,7,8,63,64,65,4095,4096,4097} x align in {1,2,4,..,4096} with D=3 (thorough 4), "
@@ -17,13 +21,13 @@ _ASSUME = ["null is an acceptable result of alignedMalloc for any request (the s
 
 UNITS_LOCAL = {"C14": [
     Unit("mm_asan", ["harness/C14_alloc.cpp"], repo_src=["rkcommon/memory/malloc.cpp"],
-         flags=ASAN, env=ASAN_ENV, opt="-O1", engine="seqmc",
-         budget={"quick": 90, "thorough": 900},
+         flags=ASAN, env=_ENV, opt="-O1", engine="seqmc",
+         budget={"quick": 400, "thorough": 1500},
          rule="_mm_malloc/_mm_free back end under ASan+UBSan+LSan. " + _RULE,
          assumptions=_ASSUME + ["ASan replaces malloc/posix_memalign/free below _mm_malloc: extent and release are judged on ASan's allocator, alignment arithmetic is rkcommon's/_mm_malloc's own"]),
     Unit("tbb", ["harness/C14_alloc.cpp"], repo_src=["rkcommon/memory/malloc.cpp"],
          defs=["RKCOMMON_TASKING_TBB"], libs=["-ltbb", "-ltbbmalloc"], flags=[], opt="-O1", engine="seqmc",
-         budget={"quick": 60, "thorough": 600},
+         budget={"quick": 300, "thorough": 1200},
          rule="TBB scalable_aligned_malloc/scalable_aligned_free back end, no sanitizer: fill-pattern, disjointness, scalable_msize >= size, "
               "and 256 MiB worth of malloc/free cycles of one block (9 size/align pairs) grow the address space by <= 128 MiB. " + _RULE,
          assumptions=_ASSUME + ["no sanitizer interposes on tbbmalloc: an out-of-extent write is only seen when it damages another live harness block"]),
